@@ -696,6 +696,78 @@ var cornerDocs = []string{
 	"<a> <b> \"\\uD800\" .", "<a> <b> \"\\U00110000\" .", "<\\u0020> <b> <c> .", "<a> <b> \"a\nb\" .", "<a> <b> '''a\nb''' .",
 }
 
+// kwLabels: prefix labels that collide with a keyword look-ahead of the top-level functions, of
+// reader_scan_PredicateObjectList ('a') or of reader_scan_Object ('true' / 'false'): proper prefixes of,
+// the keywords themselves, and extensions, in several spellings.
+var kwLabels = []string{
+	"g", "gr", "gra", "grap", "graph", "graphs", "grant", "gram", "grab", "graPh", "Gra", "GRA", "GRAP", "GRAPH", "GRAPHx", "gRaPhic", "gx", "grx",
+	"p", "pr", "pre", "pref", "prefi", "prefix", "prefixx", "prez", "prefab", "P", "PR", "PRE", "PREFI", "PREFIX", "PREFIXES", "pRefIy",
+	"b", "ba", "bas", "base", "based", "bat", "bass", "B", "BA", "BAS", "BASE", "BASEx", "bAsk",
+	"a", "ab", "aa", "A",
+	"t", "tr", "tru", "trub", "true", "truex", "trx", "f", "fa", "fal", "fals", "falsy", "false", "falsex", "fx",
+}
+
+// shortened: every label obtained by deleting one character (what a look-ahead that forgets to push a rune back reads).
+func shortened(l string) []string {
+	seen := map[string]bool{l: true}
+	var out []string
+	for i := range l {
+		s := l[:i] + l[i+1:]
+		if !seen[s] {
+			seen[s] = true
+			out = append(out, s)
+		}
+	}
+	return out
+}
+
+// kwDocs: every keyword-like label in every position (subject, predicate, object, list member, datatype, graph
+// name), with and without the shortened labels declared too (distinct namespaces, so a lost rune shows either
+// as an unknown prefix or as a different IRI).
+func (g *gen) kwDocs() {
+	ttlBodies := []string{
+		"%[1]s:s o:p o:o .", "o:s %[1]s:p o:o .", "o:s o:p %[1]s:o .", "o:s o:p o:x , %[1]s:o ; o:q %[1]s:o2 .",
+		"o:s o:p \"x\"^^%[1]s:d .", "o:s o:p ( %[1]s:a %[1]s:b ) .", "[ %[1]s:p %[1]s:o ] o:p o:o .", "( %[1]s:a ) %[1]s:p %[1]s:o .",
+		"%[1]s:s a %[1]s:o .", "%[1]s:s\t%[1]s:p\n%[1]s:o.", "o:s o:p o:o .\n%[1]s:s o:p o:o .", "%[1]s: %[1]s: %[1]s: .",
+	}
+	trigBodies := []string{
+		"%[1]s:g { o:s o:p o:o }", "GRAPH %[1]s:g { %[1]s:s %[1]s:p %[1]s:o }", "graph\t%[1]s:g{%[1]s:s a %[1]s:o.}", "{ %[1]s:s %[1]s:p %[1]s:o }",
+		"{ o:s o:p o:o . %[1]s:s o:p %[1]s:o }", "%[1]s:g { ( %[1]s:a ) o:p [ %[1]s:q %[1]s:o ] }", "o:g { o:s o:p o:o } %[1]s:s o:p o:o .",
+	}
+	for li, l := range kwLabels {
+		for _, withShort := range []bool{false, true} {
+			var hdr strings.Builder
+			decl := func(lab string) {
+				if (li+len(lab))%2 == 0 {
+					fmt.Fprintf(&hdr, "@prefix %s: <http://k.example/n-%s/> .\n", lab, lab)
+				} else {
+					fmt.Fprintf(&hdr, "%s %s: <http://k.example/n-%s/>\n", caseMix(g.r, "PREFIX"), lab, lab)
+				}
+			}
+			decl("o")
+			decl(l)
+			if withShort {
+				for _, s := range shortened(l) {
+					if s != "o" {
+						decl(s)
+					}
+				}
+			}
+			for _, b := range ttlBodies {
+				doc := []byte(hdr.String() + fmt.Sprintf(b, l))
+				g.c07("kw-ttl", "", doc, false)
+				g.rep.Count("kw:docs")
+			}
+			for _, b := range trigBodies {
+				doc := []byte(hdr.String() + fmt.Sprintf(b, l))
+				g.dec("kw-trig", "trig", false, "", doc, true)
+				g.dec("kw-trig-as-turtle", "turtle", false, "", doc, true)
+				g.rep.Count("kw:docs")
+			}
+		}
+	}
+}
+
 // ---------------------------------------------------------------- grammar-directed generator
 
 type docGen struct {
@@ -987,6 +1059,9 @@ func (d *docGen) directive() {
 	switch d.r.Intn(4) {
 	case 0:
 		p := vh.Pick(d.r, []string{"", "p", "q", "ex", "b", "base", "prefix", "graph", "a", "true", "p.q", "é"})
+		if d.r.Chance(35) {
+			p = vh.Pick(d.r, kwLabels)
+		}
 		d.sb.WriteString("@prefix")
 		d.ws(true)
 		d.sb.WriteString(p + ":")
@@ -997,6 +1072,9 @@ func (d *docGen) directive() {
 		d.prefixes = append(d.prefixes, p)
 	case 1:
 		p := vh.Pick(d.r, []string{"", "p", "q", "ex", "b", "P", "G", "t", "f"})
+		if d.r.Chance(35) {
+			p = vh.Pick(d.r, kwLabels)
+		}
 		d.sb.WriteString(caseMix(d.r, "PREFIX"))
 		d.ws(true)
 		d.sb.WriteString(p + ":")
@@ -1310,7 +1388,7 @@ func main() {
 		os.Exit(2)
 	}
 	known := map[string]vh.Finding{}
-	for _, p := range []string{"C05", "C06", "C07", "C15"} {
+	for _, p := range []string{"C02", "C05", "C06", "C07", "C15"} {
 		for k, v := range vh.KnownKeys(fs, p) {
 			known[k] = v
 		}
@@ -1412,6 +1490,8 @@ func main() {
 			g.c15chunk("turtle", "", []byte(d), false)
 			g.c15chunk("trig", "", []byte(d), false)
 		}
+		g.kwDocs()
+		rep.Exhaustive = append(rep.Exhaustive, fmt.Sprintf("%d keyword-like prefix labels (prefixes, spellings and extensions of graph/prefix/base/a/true/false) x 19 statement shapes (subject, predicate, object, list member, datatype, graph name) x shortened labels declared or not", len(kwLabels)))
 		n, cuts, w3cuts := 2500**scale, 8, 4
 		if *tier == "thorough" {
 			n, cuts, w3cuts = 20000**scale, -1, -1
